@@ -480,14 +480,22 @@ def _mk_col(base, name):
     return ('col', base, name)
 
 
+def _under_cell_updates(t):
+    """The frame under a chain of cell / column stores (which leave its index as it was)."""
+    while tag(t) == 'upd' and tag(t[2]) in ('cell', 'col', 'cols') :
+        t = t[1]
+    return t
+
+
 def _rowsel(base, sel, kind):
     """kind: 'lab' (label based) or 'pos' (positional)."""
     if sel == SLICE_ALL:
         return base
     if boolish(sel):
         return mk_mask(base, sel)
-    if kind == 'lab' and tag(sel) == 'sub' and sel[1] == ('index', base) and not boolish(sel[2]) and tag(sel[2]) != 'slice':
-        return ('rows', base, 'pos', sel[2])          # x.at[x.index[i], c] is x.iat[i, c]
+    if kind == 'lab' and tag(sel) == 'sub' and tag(sel[1]) == 'index' and _under_cell_updates(sel[1][1]) == \
+            _under_cell_updates(base) and not boolish(sel[2]) and tag(sel[2]) != 'slice':
+        return ('rows', base, 'pos', sel[2])          # x.at[x.index[i], c] is x.iat[i, c] (cell stores keep the index)
     return ('rows', base, kind, sel)
 
 
